@@ -71,7 +71,8 @@ func hashMain(args []string) error {
 	root := fs.String("root", "", "sandbox root (created, exclusively owned)")
 	in := fs.String("in", "-", "scenario ndjson")
 	out := fs.String("out", "-", "record ndjson")
-	perTimeout := fs.Duration("timeout", 20*time.Second, "per scenario watchdog")
+	perTimeout := fs.Duration("timeout", 10*time.Second, "per scenario watchdog")
+	maxBad := fs.Int("maxbad", 4, "after this many crashed / hung scenarios the remaining ones are recorded as not-run")
 	fs.Parse(args)
 	if *root == "" {
 		return fmt.Errorf("--root required")
@@ -99,9 +100,13 @@ func hashMain(args []string) error {
 		defer f.Close()
 		w = f
 	}
-	return supervise([]string{"hash", "--root", *root}, nil, "", scen, *perTimeout, func(i int, line []byte) {
+	nbad := 0
+	emit := func(i int, line []byte) {
 		var m map[string]any
 		if json.Unmarshal(line, &m) == nil {
+			if m["synthetic"] == true {
+				nbad++
+			}
 			if _, ok := m["id"]; !ok {
 				var s hashScen
 				json.Unmarshal(scen[i], &s)
@@ -111,8 +116,32 @@ func hashMain(args []string) error {
 		}
 		w.Write(line)
 		w.Write([]byte{'\n'})
-	})
+	}
+	for i := 0; i < len(scen); {
+		if nbad >= *maxBad {
+			for ; i < len(scen); i++ {
+				var s hashScen
+				json.Unmarshal(scen[i], &s)
+				b, _ := json.Marshal(map[string]any{"id": s.ID, "outcome": "not-run"})
+				w.Write(b)
+				w.Write([]byte{'\n'})
+			}
+			break
+		}
+		j := i + 40
+		if j > len(scen) {
+			j = len(scen)
+		}
+		base := i
+		if err := supervise([]string{"hash", "--root", *root}, nil, "", scen[i:j], *perTimeout, func(k int, line []byte) { emit(base+k, line) }); err != nil {
+			return err
+		}
+		i = j
+	}
+	return nil
 }
+
+var fixedTime = time.Date(2020, 1, 2, 3, 4, 5, 0, time.UTC)
 
 type hashChild struct {
 	root string
@@ -157,6 +186,9 @@ func (h *hashChild) ensure(files []hashFile) error {
 			if err := os.WriteFile(abs, []byte(w.C), 0o644); err != nil {
 				return err
 			}
+			// every file always carries the same modification time: an edit that keeps size and mtime
+			// (mtime-preserving tools, coarse timestamps) must still change the digest
+			os.Chtimes(abs, fixedTime, fixedTime)
 		case "dir":
 			if err := os.MkdirAll(abs, 0o755); err != nil {
 				return err
